@@ -21,13 +21,16 @@ import (
 func init() { register("C06", "exploration", runC06) }
 
 func runC06(run *common.Run) {
-	run.Rule = "Part 'atomic' (sequential, enumerated): for MutateRow, a MutateRows entry, both CheckAndMutateRow branches and ReadModifyWriteRow, every list of length 1-4 whose k-th element is invalid (each invalid kind), on an empty and on a populated row: the request/entry must fail, the whole table must be unchanged, other MutateRows entries applied exactly. Part 'lin' (concurrent): case = one history of 3-6 client goroutines x 6-10 operations (MutateRow writing one unique tag into two columns, MutateRows over both rows, CheckAndMutateRow 'if column==tag_i write tag_j', ReadModifyWriteRow increment and append of unique tags, DeleteFromRow, whole-row reads) on 2 rows (every third history next to a schema-churn client that creates a scratch family, fills it in 250 other rows and in the rows under test, and drops it again, repeatedly), recorded at the gRPC client boundary with a logical clock, with bounded holds at the write RPCs' afterRead/beforeWrite yield points; checked per row with porcupine against a sequential row model plus conservation monitors (sum of acknowledged increments, each appended tag exactly once). Non-trivial = history in which at least two operations on one row overlapped in logical time; distinct by history hash."
+	run.Rule = "Part 'atomic' (sequential, enumerated): for MutateRow, a MutateRows entry, both CheckAndMutateRow branches and ReadModifyWriteRow, every list of length 1-4 whose k-th element is invalid (each invalid kind), on an empty and on a populated row: the request/entry must fail, the whole table must be unchanged, other MutateRows entries applied exactly. Part 'lin' (concurrent): case = one history of 3-6 client goroutines x 6-10 operations (MutateRow writing one unique tag into two columns, MutateRows over both rows, CheckAndMutateRow 'if column==tag_i write tag_j' (half of the predicates also run strip_value over the row they test), ReadModifyWriteRow increment and append of unique tags, DeleteFromRow, whole-row reads) on 2 rows (every third history next to a schema-churn client that creates a scratch family, fills it in 250 other rows and in the rows under test, and drops it again, repeatedly), recorded at the gRPC client boundary with a logical clock, with bounded holds at the write RPCs' afterRead/beforeWrite yield points; checked per row with porcupine against a sequential row model plus conservation monitors (sum of acknowledged increments, each appended tag exactly once). Part 'admin': a single-row write (each of the four RPCs) meets an admin request (drop of a family it names or of another one, DropRowRange all / by prefix, GC-rule update) performed start to finish at the moment the write queues for the table lock: the write's answer and the final table must be explained by one of the two serial orders. Non-trivial = history in which at least two operations on one row overlapped in logical time; distinct by history hash."
 	run.Assumptions = []string{"porcupine v1.3.0 linearizability checker (per-row partitioning)", "sequential row model of ~60 lines", "holds are bounded sleeps inside the hooked points; they only widen interleavings and are never a verdict"}
 	if run.WantSub("atomic") {
 		c06Atomic(run)
 	}
 	if run.WantSub("lin") {
 		c06Lin(run)
+	}
+	if run.WantSub("admin") && !run.TooMany() {
+		runWriteVsAdmin(run, "admin", []string{"MutateRow", "MutateRows", "CAM", "RMW"}, run.N(180, 3000))
 	}
 	run.ScanRaceLogs("github.com/fullstorydev/emulators/bigtable")
 }
@@ -459,9 +462,10 @@ func c06History(run *common.Run, idx int, engine string) {
 	var churnErr atomic.Value
 	// every client has a scripted list of inputs, generated up front (so the history is determined by the seed up to scheduling)
 	type scripted struct {
-		rows []int // 1 or 2 rows (MutateRows over both)
-		in   c06In
-		both bool
+		rows  []int // 1 or 2 rows (MutateRows over both)
+		in    c06In
+		both  bool
+		strip bool // CAM: the predicate ends in strip_value (same truth value; a predicate must not touch the row)
 	}
 	scripts := make([][]scripted, nclients)
 	tagN := 0
@@ -487,7 +491,7 @@ func c06History(run *common.Run, idx int, engine string) {
 				}
 				t := newTag(c)
 				knownTags = append(knownTags, t)
-				scripts[c] = append(scripts[c], scripted{rows: []int{row}, in: c06In{Kind: "CAM", Expect: exp, Tag: t}})
+				scripts[c] = append(scripts[c], scripted{rows: []int{row}, in: c06In{Kind: "CAM", Expect: exp, Tag: t}, strip: r.Bool()})
 			case x < 10:
 				scripts[c] = append(scripts[c], scripted{rows: []int{row}, in: c06In{Kind: "INC", N: int64(r.Range(1, 9))}})
 			case x < 12:
@@ -588,10 +592,20 @@ func c06History(run *common.Run, idx int, engine string) {
 					if sc.in.Expect == "" {
 						// "if column a is absent": predicate = qualifier a has any cell; act in the FALSE branch
 						pred := &model.Filter{Kind: "colrange", Fam: "f1", SMode: 1, Start: "a", EMode: 1, End: "a"}
+						if sc.strip {
+							// the whole row, values stripped, then the column: same truth value
+							pred = &model.Filter{Kind: "chain", Subs: []*model.Filter{{Kind: "strip", Flag: true}, pred}}
+						}
 						st, matched = drive.CheckAndMutate(data, table, rows[sc.rows[0]], pred, nil, muts)
 						matched = !matched
 					} else {
 						pred := &model.Filter{Kind: "chain", Subs: []*model.Filter{{Kind: "colrange", Fam: "f1", SMode: 1, Start: "a", EMode: 1, End: "a"}, {Kind: "value", Re: model.Lit(sc.in.Expect)}}}
+						if sc.strip {
+							// interleave(the test above with its value stripped, a branch that strips the whole row and then blocks it)
+							pred = &model.Filter{Kind: "interleave", Subs: []*model.Filter{
+								{Kind: "chain", Subs: append(append([]*model.Filter{}, pred.Subs...), &model.Filter{Kind: "strip", Flag: true})},
+								{Kind: "chain", Subs: []*model.Filter{{Kind: "strip", Flag: true}, {Kind: "block", Flag: true}}}}}
+						}
 						st, matched = drive.CheckAndMutate(data, table, rows[sc.rows[0]], pred, muts, nil)
 					}
 					outs[0].Matched = matched
